@@ -225,12 +225,16 @@ Error BaseAssembler::embed_const_pool(const Label& label, const ConstPool& pool)
     return report_error(make_error(Error::kNotInitialized));
   }
 
+  // A refused call consumes the pending inline comment like a refused bind() does (it would otherwise be attached to whatever
+  // is emitted next).
   if (ASMJIT_UNLIKELY(!is_label_valid(label))) {
+    reset_inline_comment();
     return report_error(make_error(Error::kInvalidLabel));
   }
 
   // Check before aligning so a failed call appends no padding.
   if (ASMJIT_UNLIKELY(_code->is_label_bound(label))) {
+    reset_inline_comment();
     return report_error(make_error(Error::kLabelAlreadyBound));
   }
 
